@@ -1,3 +1,4 @@
+import Tengo.Props.VM
 import Tengo.Gen.AllocSites
 import Tengo.Gen.Limits
 import Tengo.Model.Limits
